@@ -231,6 +231,19 @@ MUTATIONS = [
      "what": "get_ancestral_components drains the caller's root collection with .pop() (needs a mutable set: frozenset / tuple / dict-view callers break)",
      "old": "        for v in root_variables\n    }\n    logger.debug(\"In _get_ancestral_components: ancestral_sets = \"",
      "new": "        for v in [root_variables.pop() for _ in range(len(root_variables))]\n    }\n    logger.debug(\"In _get_ancestral_components: ancestral_sets = \""},
+    # ---------------------------------------------------------------- DSL builders, alternative argument forms (C12)
+    {"id": "m12_str_names_kept_in_iterables", "props": ["C12"], "file": DSL,
+     "what": "_upgrade_variables no longer upgrades the str names inside an iterable (P(['A', 'B']), Y @ ['X'])",
+     "old": "        return tuple(Variable.norm(variable) for variable in variables)",
+     "new": "        return tuple(variables)"},
+    {"id": "m12_single_str_is_iterated", "props": ["C12"], "file": DSL,
+     "what": "_upgrade_variables drops the special case for a single str: 'X1' is iterated character by character",
+     "old": "    if isinstance(variables, str):\n        return (Variable(variables),)\n    elif isinstance(variables, Variable):",
+     "new": "    if isinstance(variables, Variable):"},
+    {"id": "m12_generator_consumed_by_check", "props": ["C12"], "file": DSL,
+     "what": "_upgrade_variables rejects empty hints by iterating once before building the tuple: a generator hint is consumed",
+     "old": "        return tuple(Variable.norm(variable) for variable in variables)",
+     "new": "        if not any(True for _ in variables):\n            raise ValueError(\"no variables given\")\n        return tuple(Variable.norm(variable) for variable in variables)"},
 ]
 
 
